@@ -1257,6 +1257,19 @@ def _max(L, *a, **kw):
 def _minmax(L, a, kw, ismin):
     if kw:
         raise Unsupported('min/max with key')
+    if len(a) == 1 and isinstance(a[0], Arr) and a[0].ndim == 1 and not isinstance(simp(a[0].shape[0]), int):
+        # extreme value of an array of symbolic length: bounds every element and is attained (ValueError if empty)
+        arr = a[0]
+        n = to_z3(arr.shape[0])
+        if L.ctx.branch(n <= 0):
+            raise PyRaise(builtin_exc('ValueError'), 'min()/max() arg is an empty sequence')
+        v = L.ctx.fresh_real('extreme') if arr.dtype in FLOAT_DT else L.ctx.fresh_int('extreme')
+        w = L.ctx.fresh_int('attained_at')
+        i = z3.Int('i!mm')
+        ei = to_z3(arr.f((i,)))
+        L.ctx.fact(z3.ForAll([i], z3.Implies(z3.And(0 <= i, i < n), (ei >= v) if ismin else (ei <= v)), patterns=[ei]))
+        L.ctx.fact(z3.And(0 <= w, w < n, to_z3(arr.f((w,))) == v))
+        return v
     if len(a) == 1:
         items = L.I.iterate(a[0])
     else:
